@@ -279,6 +279,10 @@ def compressible (ss : List (List Node)) : Bool :=
       match col with
       | [] => true
       | n0 :: _ =>
+        -- the same for a column of associated fields of 63 or 64 bits
+        if !n0.flags.skipped ∧ n0.val.isSome ∧ n0.enc.afNbits > 0 ∧ n0.afW ≥ 63 ∧
+            listMax (col.map (·.afBits)) 0 - listMin (col.map (·.afBits)) 0 ≥ 2^63 - 1 then false
+        else
         if n0.flags.skipped ∨ n0.enc.nbits < 64 then true
         else if !(n0.enc.type = .numeric || n0.enc.type = .codetable || n0.enc.type = .flagtable) then true
         else
